@@ -131,7 +131,10 @@ func c18Run(c *core.Ctx) {
 	var rejected, archives, distinct uint64
 	corruptBudget := 14
 	if c.Thorough() {
-		corruptBudget = 1 << 30
+		// all 255 values at every position for the first 48 distinct first blocks
+		// of every (format, name); the reduced value set for the rest (the type
+		// menu grew from 5 to 17: the full sweep no longer fits the tier budget)
+		corruptBudget = 48
 	}
 	unit := 0
 	for _, f := range formats {
